@@ -523,7 +523,7 @@ func label(c Case) string {
 // compare lists the differences between what a pipeline produced and the tree it had to reproduce.
 func compare(want *fstree.Node, r *result, output string, skipRootMeta, sha256d bool) []fstree.Difference {
 	if output == "localfs" {
-		return fstree.Diff(want, r.tree, fstree.DiffOptions{SkipRootMeta: skipRootMeta})
+		return fstree.Diff(want, r.tree, fstree.DiffOptions{SkipRootMeta: skipRootMeta, Max: 1 << 20})
 	}
 	return compareFlat(want, r.recs, output, skipRootMeta, sha256d)
 }
